@@ -51,6 +51,7 @@ var c10Deep = []string{
 	`(n => { if n > 0 { 1 + self(n - 1) } else { 1 / 0 } })(20000)`,
 	`(n => { if n > 0 { [self(n - 1)] } else { for true {} } })(20000)`,
 	`zz_outer(3000000)`, // deadline inside a memoizable function
+	`zz_safe(3000000)`,  // ... whose error a catch() around the slow call turns into a value
 	`(() => { for za = 2 { for zb = 2 { for zc = 2 { for zd = 2 { for ze = 2 { for zf = 2 { for zg = 2 { [1] * 1152921504606846976 } } } } } } } })()`,
 }
 
@@ -58,12 +59,14 @@ var c10DeepSetup = []string{
 	`func zz_down(n) {if n <= 0 {return 0}; 1 + zz_down(n - 1)}`,
 	`func zz_burn(n) {t = 0; for i = n {t = t + i}; t}`,
 	`func zz_outer(n) {zz_burn(n) + 1}`,
+	`func zz_safe(n) {catch(zz_burn(n))}`,
 	`zz_down(100)`,
 }
 
 var c10DeepProbes = []string{
 	`zz_down(30000)`,
 	`zz_outer(3000000)`,
+	`zz_safe(3000000)`,
 	`zz_burn(3000000)`,
 	`for p1 = 2 { for p2 = 2 { for p3 = 2 { for p4 = 2 { for p5 = 2 { for p6 = 2 { for p7 = 2 { for p8 = 2 { if p1 + p2 + p3 + p4 + p5 + p6 + p7 + p8 == 8 { println("all") } } } } } } } } }`,
 	`len([0] * 4000000)`,
@@ -93,7 +96,7 @@ var c10Failing = []string{
 }
 
 func c10IsDeadline(s string) bool {
-	return strings.Contains(s, "for true {}") || s == "zz_outer(3000000)"
+	return strings.Contains(s, "for true {}") || s == "zz_outer(3000000)" || s == "zz_safe(3000000)"
 }
 
 func (p c10) run(inputs []string, failing []bool, depth int) []runOut {
@@ -129,6 +132,14 @@ func (p c10) compare(c *fw.Ctx, plus []string, failing []bool, depth int) {
 	if anyTimeout(a) {
 		c.Count("timeouts_skipped", 1)
 		return
+	}
+	// a succeeding input that really used up the harness's own generous budget (loaded machine) decides nothing; a
+	// deadline error that comes back at once is a leftover and is judged below
+	for i := range plus {
+		if !failing[i] && b[i].timedOut && b[i].elapsed > 4*time.Second {
+			c.Count("timeouts_skipped", 1)
+			return
+		}
 	}
 	really := 0
 	j := 0
